@@ -166,7 +166,12 @@ def structHandler10 : Handler
           | .addFk t n c rt rc => if t == exp.table then some ({ name := n, col := c, refT := rt, refC := rc } : FkSpec) else none
           | _ => none)
         check (permEq got exp.fks) s!"FromObjects loaded the foreign keys {repr got}, expected {repr exp.fks}"
-    let regionDdl := Scope.c06 g d (allowUnsupported := true)
+    -- postgres with generated comments: COMMENT ON statements follow the RENAME of a `previous` column but name the old
+    -- column (part of the recorded finding postgres-builder-output)
+    let prevWithComment := Scope.anyTags (fun t => (t.splitOn ",previous:").length > 1 &&
+      ((t.splitOn ";").map Builder.snake).any (fun n => n.startsWith "comment:")) d.fields
+    let regionDdl := if g.dialect == .postgres && (cm || prevWithComment) then some "postgres-builder-output"
+      else Scope.c06 g d (allowUnsupported := true) (ddlOnly := true)
     let r10 : Check := do
       check (toLowerAscii ddl == toLowerAscii ddlFlip) "the two keyword-case options differ by more than ASCII case"
       let q := Grammar.quoteOf g.dialect
